@@ -26,6 +26,8 @@ structure Step where
   ok : Bool
   xfers : List (Nat × Nat × Nat)        -- (from, to, amount), execution order
   residue : Bool                          -- any of tmp-swap / sent-funds / tmp-liquidator present after
+  /-- vAMMs on which a liquidation succeeded earlier in this transaction's block (from the observed history) -/
+  liqsThisBlock : List Nat := []
   deriving Inhabited
 
 namespace W
@@ -221,8 +223,12 @@ def C14.check (s : Step) : List String :=
    | _ => [])
 
 /-! ### C16: after a liquidation, no second position action in the same block -/
+/-- restricted: a liquidation happened on this vAMM in this block (as observed in the history of
+    transactions; the engine's own marker is consulted as well) and the sender's position was already
+    updated in this block -/
 def C16.restricted (s : Step) (v : Nat) : Bool :=
-  (Engine.readVammMap s.pre.engine v).lastRestriction == s.env.height && (pos s.pre v s.sender).block == s.env.height
+  (s.liqsThisBlock.contains v || (Engine.readVammMap s.pre.engine v).lastRestriction == s.env.height)
+  && (pos s.pre v s.sender).block == s.env.height
 
 def C16.check (s : Step) : List String :=
   match engineMsg s with
